@@ -19,6 +19,19 @@ ASSUMPTIONS = ['the ideal reading is harness/c08_opts.c:ref_parse (written from 
                'bad-option limit not reached (allow_bad 200); output functions are counters', 'allocation failure out of scope']
 
 
+
+def _sweep_stale(bdir, prefix):
+    """generated units of runs that are gone (a --list call, a killed run) are removed; live runs keep theirs"""
+    import re as _re
+    for fn in os.listdir(bdir):
+        m = _re.match(_re.escape(prefix) + r'(\d+)\.c$', fn)
+        if m and not os.path.exists('/proc/' + m.group(1)):
+            try:
+                os.unlink(os.path.join(bdir, fn))
+            except OSError:
+                pass
+
+
 def families(tier):
     q = tier == 'quick'
     # options.c needs two data tables that live in conf.c (true_vals / false_vals); linking all of conf.c costs 4 s of
@@ -29,6 +42,7 @@ def families(tier):
         raise RuntimeError('C08: true_vals/false_vals definitions not found in src/conf.c')
     bdir = os.path.join(VERIF, 'build')
     os.makedirs(bdir, exist_ok=True)
+    _sweep_stale(bdir, 'c08_boolvals_')
     gen = os.path.join(bdir, 'c08_boolvals_%d.c' % os.getpid())
     open(gen, 'w').write('/* generated from src/conf.c */\n' + '\n'.join(defs) + '\n')
     fams = []
